@@ -39,7 +39,7 @@ impl<T, D> Inner<T, D> {
         ensures r as int == idx(self.stride, x, y),
     //@end
 
-    //@obligation props=C11 :: to_index_checked returns Some(i) exactly for in-bounds (x,y), with i = y*stride+x strictly inside the view's extent; None otherwise (access outside the bounds is rejected)
+    //@obligation props=C11 pair=buf_to_index_checked_small :: to_index_checked returns Some(i) exactly for in-bounds (x,y), with i = y*stride+x strictly inside the view's extent; None otherwise (access outside the bounds is rejected)
     #[verifier::nonlinear]
     //@extract core/src/util/buf.rs :: impl<T, D> Inner<T, D> { :: to_index_checked ret=r
         requires self.wf_geom(),
@@ -48,7 +48,7 @@ impl<T, D> Inner<T, D> {
                 r.is_some() ==> idx(self.stride, x, y) < (self.dims.1 - 1) * self.stride + self.dims.0,
     //@end
 
-    //@obligation props=C11 :: resolve_bounds rejects unless l<=r<=w and t<=b<=h; otherwise dims' = (r-l, b-t), the linear range starts at cell (l,t) and spans exactly (b-t-1)*stride + (r-l) elements (or the empty case), and ends inside the parent's extent
+    //@obligation props=C11 pair=buf_resolve_bounds_small :: resolve_bounds rejects unless l<=r<=w and t<=b<=h; otherwise dims' = (r-l, b-t), the linear range starts at cell (l,t) and spans exactly (b-t-1)*stride + (r-l) elements (or the empty case), and ends inside the parent's extent
     #[verifier::nonlinear]
     //@extract core/src/util/buf.rs :: impl<T, D> Inner<T, D> { :: resolve_bounds ret=res
         requires self.wf_geom(),
@@ -64,6 +64,9 @@ impl<T, D> Inner<T, D> {
             &&& (b > t ==> res.1.end as int - res.1.start as int == (b - t - 1) * self.stride as int + (r - l))
             &&& (b == t ==> res.1.end as int - res.1.start as int == (r - l))
             &&& (b > t ==> res.1.end as int <= (self.dims.1 - 1) * self.stride + self.dims.0)
+            // the range never reaches beyond the extent the data is known to hold, empty rectangles included
+            &&& (self.dims.1 > 0 ==> res.1.end as int <= (self.dims.1 - 1) * self.stride + self.dims.0)
+            &&& (self.dims.1 == 0 ==> res.1.end == 0)
         }),
     //@end
 
